@@ -76,6 +76,17 @@ def _gate(self, name):
     gdir = os.environ.get('LV_GATEDIR')
     if not gdir:
         return
+    if os.environ.get('LV_TERM_GRACE'):
+        # a task that shuts down gracefully: SIGTERM is honoured only after a while
+        import signal
+
+        def _later(signum, frame, grace=float(os.environ['LV_TERM_GRACE'])):
+            time.sleep(grace)
+            os._exit(0)
+        try:
+            signal.signal(signal.SIGTERM, _later)
+        except ValueError:
+            pass          # not the main thread of its process
     open(os.path.join(gdir, f'{name}_{self.label}'), 'w').close()
     path = os.path.join(gdir, f'go_{self.label}')
     deadline = time.monotonic() + float(os.environ.get('LV_GATE_TIMEOUT', '60'))
